@@ -117,7 +117,7 @@ inductive Op where
   | append (i : Nat) (d : List Byte)
   | reserve (i : Nat) (n : Nat)
   | rwc (i : Nat) (n : Nat) (d : List Byte)   -- ensure n; write d (|d| ≤ n); hasWritten |d|
-  | over (i : Nat) (n : Nat)                  -- zero-fill writable region; hasWritten (writable + n): clamps
+  | over (i : Nat) (n : Nat)                  -- zero-fill writable region; hasWritten (max writable n): clamps
   | fetch (i : Nat) (n : Nat)
   | consume (i : Nat) (n : Nat)
   | consumeAll (i : Nat)
@@ -157,7 +157,7 @@ def step (s : Store) : Op → Store × Out
       -- the caller zero-fills the whole writable region, then over-commits by n
       let b := s.get i
       let (b1, a) := b.userWrite (List.replicate b.writable 0)
-      (s.put i (b1.hasWritten (b.writable + n)), { accesses := a })
+      (s.put i (b1.hasWritten (max b.writable n)), { accesses := a })
   | .fetch i n =>
       let (b, out, a) := (s.get i).fetch n
       (s.put i b, { fetched := out, ret := out.length, accesses := a })
